@@ -435,9 +435,15 @@ func cmdCheck(args []string) int {
 			"vacuity_failures":              vacuous,
 		},
 	}
-	os.MkdirAll(filepath.Join(verifDir(), "evidence"), 0o755)
+	// VCHECK_EVIDENCE_DIR: seeded-change experiments (scripts/try_seed.sh, seed_regress.sh) run against a
+	// deliberately broken tree and must not overwrite the evidence of the real tree
+	evDir := filepath.Join(verifDir(), "evidence")
+	if d := os.Getenv("VCHECK_EVIDENCE_DIR"); d != "" {
+		evDir = d
+	}
+	os.MkdirAll(evDir, 0o755)
 	eb, _ := json.MarshalIndent(ev, "", " ")
-	os.WriteFile(filepath.Join(verifDir(), "evidence", id+".json"), eb, 0o644)
+	os.WriteFile(filepath.Join(evDir, id+".json"), eb, 0o644)
 	fmt.Printf("check %s tier=%s paths=%d queries=%d obligations=%d discharged=%d known=%d violations=%d exhaustive=%v wall=%.1fs\n",
 		id, *tier, total.Paths, total.Queries, total.AssertsTotal, total.Discharged, len(knownLines), len(violLines), exhaustive, wall)
 	if len(violLines) > 0 {
